@@ -11,11 +11,11 @@ CHECKS = {
     note='Trusted: the reference lexer/parser in sqv/spec (frozen reading of the published grammar and operator table, cross-checked on 39M token strings); exhaustive claims are over token kinds with canonical lexemes.'),
  'C01': dict(
     technique='Hypothesis program generation + metamorphic relations over budgets (every N in 1..K+2), run-time monitor of charges/node entries, multi-eval sessions',
-    text='Generated programs (typed statements, probe templates with lambdas driven by map/filter/reduce/sorted, recursion, propagating/swallowing/nesting host callbacks, ast_names bodies) are run unbounded to learn K and then under every budget N in 1..K+2 (boundary+drawn budgets when K>60); a monitor wrapped around Op.eval and every node class counts charges and entries. Checked: at most N-1 operations take effect, ops-limit ParserError exactly at the N-th node evaluation quoting N, probe log and names are the prefix state before operation N, monotone in N, sessions with lambdas stored by earlier evals. Exploration by random generation; exhaustive only over budgets per program.',
+    text='Generated programs (typed statements, probe templates with lambdas driven by map/filter/reduce/sorted, recursion, propagating/swallowing/nesting host callbacks, ast_names bodies) are run unbounded to learn K and then under every budget N in 1..K+2 (boundary+drawn budgets when K>60); a monitor wrapped around Op.eval and every node class counts charges and entries. Checked: at most N-1 operations take effect, ops-limit ParserError exactly at the N-th node evaluation quoting N, probe log and names are the prefix state before operation N, monotone in N, sessions with lambdas stored by earlier evals. Exploration by random generation; exhaustive only over budgets per program. A deep job runs runaway recursion and nestings up to 2500 deep under budgets up to 10^9: the ops-limit error may only come from the N-th started operation.',
     note='Trusted: the harness monitor (wrapping Op.eval/subclass eval at run time); prefix relations are not asserted when a swallowing host is on the call path.'),
  'C02': dict(
     technique='Hypothesis builtin sweep over the live function table with shape tables and hostile pool; deep type-walk oracle on every node result; vetoing sys.addaudithook',
-    text='Every builtin in the live table is called with typed and hostile arguments (attribute/format/path-like strings, callables, nested containers, tuples), composed and embedded in program forms, and used as a value; typed programs as well. calls of names that are not in the table (Python attribute and method names) on every kind of receiver are included. Every node result, the result and the final names are walked for anything other than plain data, table entries and program lambdas; an audit hook flags and vetoes file/process/network/import/exec/compile events during eval, and a cold-start job repeats the audit in a fresh interpreter armed before its very first eval. Exploration.',
+    text='Every builtin in the live table is called with typed and hostile arguments (attribute/format/path-like strings, callables, nested containers, tuples), composed and embedded in program forms, and used as a value; typed programs as well. calls of names that are not in the table (Python attribute and method names) on every kind of receiver are included. Every node result, the result and the final names are walked for anything other than plain data, table entries and program lambdas; an audit hook flags and vetoes file/process/network/import/exec/compile events during eval, and a cold-start job repeats the audit in a fresh interpreter armed before its very first eval. Exploration. Also: calls with one argument swapped for a callable plus surplus arguments, evaluation on a worker thread, and a shared parser that earlier served failing calls binding module-returning host functions.',
     note='Trusted: CPython audit events as the observation point for I/O and dynamic code; lazy imports done by libraries for themselves are tallied only.'),
  'C07': dict(
     technique='Hypothesis type-directed program generator, differential against an independent reference interpreter (value, names, error class, op count)',
@@ -23,27 +23,27 @@ CHECKS = {
     note='Trusted: sqv/spec/refsem.py as the reading of the documented semantics; Decimal arithmetic itself is delegated to Python decimal (C08 covers exactness); cases outside the reference domain are discarded and counted.'),
  'C13': dict(
     technique='Hypothesis sweep of every non-mutator in the live table with shape tables; deep before/after snapshot oracle (structure, order, types, identity)',
-    text='Every non-mutating builtin in the live table is called directly and through eval (alone, piped, inside map, with host-supplied objects) with arguments from per-builtin shape tables; a deep snapshot including identities of nested containers must be unchanged afterwards. Exploration.',
+    text='Every non-mutating builtin in the live table is called directly and through eval (alone, piped, inside map, with host-supplied objects) with arguments from per-builtin shape tables; a deep snapshot including identities of nested containers must be unchanged afterwards. Exploration. Host dicts are also supplied as defaultdict / OrderedDict / a __missing__ subclass; surplus container arguments.',
     note='Trusted: the list of seven declared mutators from the property statement.'),
  'C03': dict(
     technique='Hypothesis operation sequences from host containers around the cap; run-time monitor invariant (no container beyond the bound) and at-cap exactness on wrapped mutators',
-    text='Generated sequences of every container-producing or -mutating path (push/insert/index and compound index assignment, +, +=, *=, nested growth, doubling chains, slices, higher-order and conversion builtins, string-to-list builtins) start from host lists/dicts of length 0,1,5,9998..10001 and strings up to 12000 chars. A second generator sweeps every entry of the live function table (biased to entries the harness has no shape table for) over near-cap containers and huge numeric arguments. A monitor checks every node result and every container reachable from names after each mutating statement against bound = max(10000, longest host value, longest literal) and that element-adding operations at the cap raise ParserError leaving the container unchanged. Exploration.',
+    text='Generated sequences of every container-producing or -mutating path (push/insert/index and compound index assignment, +, +=, *=, nested growth, doubling chains, slices, higher-order and conversion builtins, string-to-list builtins) start from host lists/dicts of length 0,1,5,9998..10001 and strings up to 12000 chars. A second generator sweeps every entry of the live function table (biased to entries the harness has no shape table for) over near-cap containers and huge numeric arguments. A monitor checks every node result and every container reachable from names after each mutating statement against bound = max(10000, longest host value, longest literal) and that element-adding operations at the cap raise ParserError leaving the container unchanged. Exploration. Lambdas returned to the host and called after eval() returned, surplus arguments to push/insert, nodes first evaluated with numbers.',
     note='Trusted: harness monitor; overwrites of existing keys at the cap may fail or succeed; known finding D2b (uncapped strings) excluded by construction and printed as KNOWN-FINDING.'),
  'C04': dict(
     technique='Hypothesis operand pairs/chains over all host numeric types, one eval per step with digit-count oracle, in a CPU-capped helper process',
-    text='Operand pairs and chains (1-30 single-statement evals on a persistent mapping) over bool/int/float/Decimal/str/list operands including 1001-digit ints, 40-digit coefficients, exponents to +-999999: every arithmetic operator, compound assignment (name, list slot, dict slot) and numeric builtin; each step is judged right after it ran: * ** *= yield 28-digit Decimals or arithmetic/ParserErrors and never repeat strings/lists; other results have at most max(28, 1+widest argument) digits. Exploration.',
+    text='Operand pairs and chains (1-30 single-statement evals on a persistent mapping) over bool/int/float/Decimal/str/list operands including 1001-digit ints, 40-digit coefficients, exponents to +-999999: every arithmetic operator, compound assignment (name, list slot, dict slot) and numeric builtin; each step is judged right after it ran: * ** *= yield 28-digit Decimals or arithmetic/ParserErrors and never repeat strings/lists; other results have at most max(28, 1+widest argument) digits. Exploration. Closed programs with names omitted / None / {} whose operands come from len/index_of/enumerate; any table entry added after the shape tables were frozen is swept as a numeric builtin.',
     note='Trusted: digit measures (lower bound for results, upper bound for arguments, float arguments by exact expansion, float results exempt as fixed-size); known finding D4 excluded by construction; CPU-cap kills are inconclusive.'),
  'C05': dict(
     technique='Hypothesis pattern/subject/flag generation biased to catastrophic backtracking; CPU-time measurement in a helper process killed by ITIMER_PROF',
-    text='Triples for match/match_groups/match_all (taken from the live table): grammar-generated and classic ReDoS patterns (nested/overlapping quantifiers, alternations, counted repeats, back-references, look-around, fuzzy, reverse, slow-to-compile padding), pumped subjects up to 10^5 chars and many-expensive-matches subjects, all flag strings. Each call runs with a cold compile cache in a helper under a CPU cap; CPU time must stay below 1.5 x compile + 0.30 s + linear terms. Exploration of a timing property: shows generated patterns are bounded and finds slow ones; cannot bound the engine for all patterns.',
+    text='Triples for match/match_groups/match_all (taken from the live table): grammar-generated and classic ReDoS patterns (nested/overlapping quantifiers, alternations, counted repeats, back-references, look-around, fuzzy, reverse, slow-to-compile padding), pumped subjects up to 10^5 chars and many-expensive-matches subjects, all flag strings. Each call runs with a cold compile cache in a helper under a CPU cap; CPU time must stay below 1.5 x compile + 0.30 s + linear terms. Exploration of a timing property: shows generated patterns are bounded and finds slow ones; cannot bound the engine for all patterns. Also very long result lists with every flag letter, and subjects that are expensive for Unicode normalisation / case folding.',
     note='Trusted: process CPU time of an isolated helper as the measure; known finding D5 (unbounded compilation) excluded by capping nested counted repeats and printed as KNOWN-FINDING.'),
  'C08': dict(
     technique='Hypothesis expression trees over decimal literals; exact-rational (fractions.Fraction) oracle with own half-even 28-digit rounding',
-    text='Expression trees over + - * /, unary minus, comparisons, round/floor/ceil/abs/int/sum/min/max on literals with up to 40+40 digits (ties, values straddling the 28th digit) are compared with exact rational arithmetic rounded half-even to 28 significant digits after every operation; literals must denote exactly their text; comparisons follow rational order. Exploration.',
+    text='Expression trees over + - * /, unary minus, comparisons, round/floor/ceil/abs/int/sum/min/max on literals with up to 40+40 digits (ties, values straddling the 28th digit) are compared with exact rational arithmetic rounded half-even to 28 significant digits after every operation; literals must denote exactly their text; comparisons follow rational order. Exploration. Method/pipe forms with a bare leading minus, literal-tail chains (re-association), parsers built or used under other decimal contexts or with a parse cache.',
     note='Trusted: Python fractions and the 25-line rounding function; magnitudes kept within 10^+-200.'),
  'C09': dict(
     technique='bounded exhaustive enumeration of typed expression/statement shapes with logging probes (all truth assignments, every raising probe) + Hypothesis larger shapes; small reference evaluator of order and laziness',
-    text='All statement shapes with up to 2 (quick) / 3 (thorough) internal nodes over 36 node kinds (including calls of undefined functions), also with identical probes at several leaves, each under all truth assignments of its probes and with every single probe (or none) raising, are evaluated with logging host probes at the leaves; the probe log, value and type must equal those of a 60-line reference evaluator of shapes. Exhaustive within the bound; larger shapes sampled with Hypothesis.',
+    text='All statement shapes with up to 2 (quick) / 3 (thorough) internal nodes over 42 node kinds (including calls of undefined functions, the unparenthesised conditional chain, a lambda body run twice), also with identical probes at several leaves, each under all truth assignments of its probes and with every single probe (or none) raising, are evaluated with logging host probes at the leaves; the probe log, value and type must equal those of a 60-line reference evaluator of shapes. Exhaustive within the bound; larger shapes sampled with Hypothesis. Non-raising cases run again on a parser with a parse cache (one tree under every truth assignment); raising probes raise subclasses of TypeError/KeyError/ValueError/IndexError/ZeroDivisionError/AttributeError in turn.',
     note='Trusted: the shape evaluator in sqv/props/c09.py; probes are host callables.'),
  'C10': dict(
     technique='Hypothesis programs with names bound at builtin/host/parameter level; differential against a reference scope model + invariants on the builtin table and host-invoked lambdas',
@@ -51,15 +51,15 @@ CHECKS = {
     note='Trusted: sqv/spec/refsem.py scope model (innermost-first, write to the top scope, lambdas run against the eval in progress); known finding D15 classified by shape and printed as KNOWN-FINDING.'),
  'C11': dict(
     technique='Hypothesis call-history sequences; lock-step of one long-lived parser against a fresh parser per call; metamorphic repeat-stability',
-    text='Generated sequences of parse/eval/list_names calls (valid, lexically and syntactically invalid incl. unbalanced brackets and premature end, runtime and ops-limit failures, lazily consumed / abandoned / interleaved list_names generators, lambdas persisting in names and copied between mappings) are applied to one long-lived SqParser and, call by call, to a never-used SqParser with deep-equal arguments; result, exception class+message and names must agree. An identical call repeated 30 times, also after the host changed other mappings, must keep its outcome. Exploration.',
+    text='Generated sequences of parse/eval/list_names calls (valid, lexically and syntactically invalid incl. unbalanced brackets and premature end, runtime and ops-limit failures, lazily consumed / abandoned / interleaved list_names generators, lambdas persisting in names and copied between mappings) are applied to one long-lived SqParser and, call by call, to a never-used SqParser with deep-equal arguments; result, exception class+message and names must agree. An identical call repeated 30 times, also after the host changed other mappings, must keep its outcome. Exploration. The shared parser is plain or built with a parse cache, the host shadows builtins in a mapping, and no call may change the thread decimal context in a way that alters later results.',
     note='Trusted: fresh-world answers are memoised by argument contents when names hold no callables.'),
  'C12': dict(
     technique='Hypothesis assignment/mutation/read sequences; differential against reference value semantics + object-identity disjointness invariant checked by a run-time monitor',
-    text='Generated sequences over nested list/dict/tuple values with shared sub-objects and host-held objects: the four assignment forms, then mutations through either side, a host-side mutation between two evals, then reads. Results, names and the host objects must equal the reference value semantics; right after every assignment-like node a monitor checks that mutable objects reachable from the stored value (for += on lists: the appended elements) are disjoint from everything else reachable. Exploration.',
+    text='Generated sequences over nested list/dict/tuple values with shared sub-objects and host-held objects: the four assignment forms, then mutations through either side, a host-side mutation between two evals, then reads. Results, names and the host objects must equal the reference value semantics; right after every assignment-like node a monitor checks that mutable objects reachable from the stored value (for += on lists: the appended elements) are disjoint from everything else reachable. Exploration. Host functions with parsed multi-statement bodies (ast_names), host dicts with non-string keys; the reference runs on the grammar-derived tree.',
     note='Trusted: the harness monitor reading VMState.names.scopes (falls back to the host mapping); self-containing values are skipped.'),
  'C14': dict(
     technique='bounded exhaustive DFS over an operation alphabet + Hypothesis RuleBasedStateMachine; Python list/dict reference model with explicit casts',
-    text='All operation sequences up to depth 3 (quick) / 4 (thorough) over 55 concrete list/dict operations from an empty and a populated state, and random RuleBasedStateMachine sequences up to 60 steps with generated keys/indices/values, each step a tiny eval on a persistent mapping; after every step the observable result, the error class for missing key / out-of-range read / pop on empty, and the full container contents must equal the Python model with int()/str() casts. Exhaustive within the depth bound.',
+    text='All operation sequences up to depth 3 (quick) / 4 (thorough) over 70 concrete list/dict operations (incl. Python-int keys, fresh-literal and row operations; the populated state runs on a parser with a parse cache) from an empty and a populated state, and random RuleBasedStateMachine sequences up to 60 steps with generated keys/indices/values, each step a tiny eval on a persistent mapping; after every step the observable result, the error class for missing key / out-of-range read / pop on empty, and the full container contents must equal the Python model with int()/str() casts. Exhaustive within the depth bound.',
     note='Trusted: the 150-line model in sqv/props/c14.py; failing writes may raise anything or be no-ops as long as the container is unchanged.'),
  'C15': dict(
     technique='Hypothesis programs x meaning-preserving rewrites (tree-level and token-gap level), metamorphic tree equality; every-position sweeps',
@@ -71,7 +71,7 @@ CHECKS = {
     note='Trusted: reference lexer/parser/interpreter; RecursionError/MemoryError on valid deep programs are ordinary Exceptions; libFuzzer campaigns are only approximately reproducible, saved inputs are the reproducible unit.'),
  'C17': dict(
     technique='Hypothesis call sequences; lock-step of an uncached parser against dict / LRU(2) / always-evicting / pre-warmed caches; deep attribute snapshot of cached trees',
-    text='Generated sequences of parse/eval calls over repeated, whitespace-near-duplicate and failing sources, names that shadow builtins, varying budgets, with the host mutating every mutable result, are applied to five parsers differing only in their cache mapping; results, exception class+message, names and parsed trees must agree call by call, and a deep snapshot (all instance attributes) of every cached tree must be unchanged by every eval. Exploration.',
+    text='Generated sequences of parse/eval calls over repeated, whitespace-near-duplicate and failing sources, names that shadow builtins, varying budgets, with the host mutating every mutable result, are applied to five parsers differing only in their cache mapping; results, exception class+message, names and parsed trees must agree call by call, and a deep snapshot (all instance attributes) of every cached tree must be unchanged by every eval. Exploration. Half of the source pool are generated typed programs; the host changes module-level settings (CAST_DICT_KEYS_TO_STRINGS, MAX_ARRAY_SIZE, REGEX_TIMEOUT) between calls.',
     note='Trusted: cache mappings are well-behaved MutableMappings.'),
  'C18': dict(
     technique='Hypothesis hostile-atom texts and identifier-renamed programs; differential against the reference lexer, tree-name containment, recording host mapping',
